@@ -143,20 +143,27 @@ def _roles(repo, col, cl, name):
 
 
 def _snippet_eval(repo, fi, names, env):
-    """Evaluate the assignments to `names` (in order) with the array evaluator."""
+    """Evaluate the assignments of the function body in source order with the array evaluator
+    (statements outside the fragment are skipped); returns the values bound to `names`."""
     ev = ArrEvaluator(repo)
     ctx = {"mod": repo.mods[fi.file], "cls": fi.cls, "defining_cls": fi.cls}
     out = {}
-    for n in ast.walk(fi.node):
-        pass
-    for st in ast.walk(fi.node):
-        if isinstance(st, ast.Assign) and isinstance(st.targets[0], ast.Name) and st.targets[0].id in names:
-            try:
-                v = ev.ev(st.value, env, ctx)
-            except Und as e:
-                raise Und(f"{st.targets[0].id}: {e}")
-            env[st.targets[0].id] = v
-            out[st.targets[0].id] = (v, st)
+    stmts = sorted((n for n in ast.walk(fi.node) if isinstance(n, ast.Assign) and isinstance(n.targets[0], ast.Name)),
+                   key=lambda n: (n.lineno, n.col_offset))
+    seeded = set(env)
+    for st in stmts:
+        nm = st.targets[0].id
+        if nm in seeded and nm not in names:
+            continue  # a seeded abstract value (arrays, index arrays, symbolic diff) is not overwritten
+        try:
+            v = ev.ev(st.value, env, ctx)
+        except Und as e:
+            if nm in names:
+                raise Und(f"{nm}: {e}")
+            continue
+        env[nm] = v
+        if nm in names:
+            out[nm] = (v, st)
     return ev, out
 
 
